@@ -471,6 +471,9 @@ func verifyCRLSignature(result *crlreader.CRLReadResult, chains *core.Certificat
 	var signatureCert *core.CertificateChainEntry
 	crlVerified := false
 	for _, certCandidate := range certCandidates {
+		if isEntitledToSignCRL(certCandidate, chains) == false {
+			continue
+		}
 		strategies := result.HashAndVerifyStrategy
 		err := strategies.VerifyStrategy.VerifySignature(strategies.HashStrategy, certCandidate.Certificate.PublicKey, result.CalculatedSignature, result.Signature.Bytes)
 		if err == nil {
@@ -483,6 +486,23 @@ func verifyCRLSignature(result *crlreader.CRLReadResult, chains *core.Certificat
 		return nil, errors.New("can not verify CRL signature with given issuer certificates")
 	}
 	return signatureCert, nil
+}
+
+// isEntitledToSignCRL A CRL is issued by a CA above the end-entity or by a configured trusted signer, never by the
+// end-entity certificate of a presented chain itself. If the certificate has a key usage extension it has
+// to permit CRL signing (rfc5280 section 6.3.3 f).
+func isEntitledToSignCRL(candidate *core.CertificateChainEntry, chains *core.CertificateChains) bool {
+	certificate := candidate.Certificate
+	if certificate.KeyUsage != 0 && certificate.KeyUsage&x509.KeyUsageCRLSign == 0 {
+		return false
+	}
+	for _, chain := range chains.CertificateChainList {
+		entries := chain.CertificateChainEntryList
+		if len(entries) > 1 && entries[0].Certificate == certificate {
+			return false
+		}
+	}
+	return true
 }
 
 func (R *Repository) DeleteTempFilesIfExist() {
